@@ -65,6 +65,9 @@ def check(ctx: Ctx) -> None:
     # a document that is not a manifest must abort the collection, not count as 'nothing reachable'
     from .c14 import parsers_read_containers_strictly
     parsers_read_containers_strictly(ctx, "C07.R15")
+    # "keeps the affected protection in force": what a marker with an unusable payload protects is a path the listing can match
+    from .c05 import r2 as c05_r2
+    ctx.shared(c05_r2, "C05.R2", "C07.R16", "a marker that cannot be read in full still protects the file it was written for")
 
 
 def _assigns(ctx: Ctx, f: FunctionInfo, h: ast.ExceptHandler, name: str, value: object) -> bool:
@@ -106,6 +109,21 @@ def _keeps_protection(ctx: Ctx, f: FunctionInfo, h: ast.ExceptHandler, may_delet
     return bool(res)
 
 
+def _no_delete_after(ctx: Ctx, f: FunctionInfo, h: ast.ExceptHandler) -> bool:
+    """Path-sensitive walk from the handler (its sentinel result carried along) to the next loop iteration / the exit: no
+    storage delete is passed."""
+    from .common import explore
+    g = ctx.cfg(f)
+    hn = next((x for x in g.nodes if x.kind == "handler" and x.ast is h), None)
+    if hn is None:
+        return False
+    loops = [fr.node for fr in hn.frames if fr.kind == "loop"]
+    stop = [n.id for n in g.nodes if n.kind == "loop" and loops and n.ast is loops[-1]]
+    dels = [n for n in g.calls() if ctx.eff.storage_op(n) == "delete_file"]
+    res = explore(ctx, f, [hn.id], stop=stop, watch=[d.id for d in dels])
+    return bool(res) and not any(store.get(("seen", d.id)) for _e, store, _a in res for d in dels)
+
+
 def _returned_names(ctx: Ctx, f: FunctionInfo) -> Set[str]:
     return {norm_text(n.ast.value) for n in ctx.cfg(f).nodes if n.kind == "return" and n.ast is not None and n.ast.value is not None}  # type: ignore[union-attr]
 
@@ -128,6 +146,12 @@ def conservative_table() -> Dict[Tuple[str, str], Tuple[str, Callable[[Ctx, Func
         ("_load_inflight_protection", "delete_file"): (
             "stale marker could not be removed: its file stays protected (every path from the handler passes protected.add)",
             lambda c, f, h: _keeps_protection(c, f, h, may_delete=True)),
+        ("_gc_prefix", "get_modified_time"): (
+            "stat of one orphan failed: it is not deleted (no path from the handler to the next iteration passes a delete)",
+            lambda c, f, h: _no_delete(c, f, h) and _no_delete_after(c, f, h)),
+        ("_gc_prefix", "delete_file"): (
+            "delete of one orphan failed: nothing else is decided by it",
+            lambda c, f, h: _no_delete(c, f, h)),
         ("_gc_prefix", "delete_file+get_modified_time"): (
             "stat/delete of one orphan failed: nothing is deleted for it, nothing live is at risk",
             lambda c, f, h: _no_delete(c, f, h)),
@@ -260,6 +284,23 @@ def r3(ctx: Ctx) -> None:
             raises = False
     ctx.ob("C07.R3", gp, "escaping listed path aborts before classification", esc[0] if esc else None, ok and raises,
            "a listed path that leaves the table root can never match the reachable set; classifying it would delete live files")
+    # ... and what the guard looks at is the NORMALISED path (the key the membership test uses): a raw '/../t/data/x' only shows
+    # its leading '..' after the slashes are stripped
+    from .c05 import _is_norm_call
+    gsl = ctx.slicer(gp)
+    for e in esc:
+        tested = []
+        for x in ast.walk(e.ast):  # type: ignore[arg-type]
+            if isinstance(x, ast.Compare) and any(isinstance(c, ast.Constant) and c.value in ("..", "../") for c in [x.left] + list(x.comparators)):
+                tested += [y for y in [x.left] + list(x.comparators) if not isinstance(y, ast.Constant)]
+            if isinstance(x, ast.Call) and isinstance(x.func, ast.Attribute) and x.func.attr == "startswith" and x.args \
+                    and any(isinstance(c, ast.Constant) and c.value in ("..", "../") for c in ast.walk(x.args[0])):
+                tested.append(x.func.value)
+        okn = bool(tested) and all(any(_is_norm_call(ctx, c) for c in gsl.origins(t_, e.id)["calls"]) for t_ in tested)
+        ctx.ob("C07.R3", gp, "the '..' guard tests the normalised path", e, okn,
+               f"`{e.text[:60]}`: " + ("the tested value is a result of _normalize_path" if okn else
+                                       "the tested value is the raw listed spelling - an entry like '/../t/data/x.parquet' passes the guard, "
+                                       "never matches the reachable set and is deleted"), text=e.text[:40])
     lst = ctx.calls(gp, storage="list_files")
     for l in lst:
         escs, caught = ctx.eff.propagate(gp, {"Exception"}, l.frames, record=False)
